@@ -75,6 +75,14 @@ fn main() {
     if std::env::var("HX_VERBOSE_PANICS").is_err() {
         std::panic::set_hook(Box::new(|_| {}));
     }
+    if cmd == "limit" {
+        let depth: usize = arg(&args, "--depth").map(|s| s.parse().unwrap()).unwrap_or(1);
+        let t0 = std::time::Instant::now();
+        let (vios, st) = hx::limit::run_limit(depth);
+        let out = serde_json::json!({"config": config_string(), "violations": vios, "stats": st, "wall_s": t0.elapsed().as_secs_f64()});
+        std::fs::write(arg(&args, "--out").expect("--out"), serde_json::to_string_pretty(&out).unwrap()).expect("write result");
+        std::process::exit(if vios.is_empty() { 0 } else { 1 });
+    }
     let sc_path = arg(&args, "--scenario").expect("--scenario");
     let sc: Scenario = serde_json::from_str(&std::fs::read_to_string(&sc_path).expect("read scenario")).expect("scenario json");
     let known = load_known(arg(&args, "--known"));
